@@ -200,7 +200,47 @@ def nested_ids(spec, v):
     return {x for x in spec.vars[v][0] if x >= NB}
 
 
+def gen_dag(rng):
+    """one acyclic graph on 4-6 nodes built in a random order, reduced and closed in place, with the queries asked before,
+    between and after (a query may not remember what it answered before an in-place change)"""
+    n = rng.choice([4, 5, 5, 5, 6])
+    order = list(range(n))
+    rng.shuffle(order)
+    dens = rng.choice([0.3, 0.5, 0.7])
+    edges = [(order[a], order[b]) for a in range(n) for b in range(a + 1, n) if rng.random() < dens]
+    rng.shuffle(edges)
+    ops = [['new', 0]]
+    nodes = list(range(n))
+    rng.shuffle(nodes)
+    for x in nodes:
+        if rng.random() < 0.5:
+            ops.append(['add_node', 0, x])
+    for a, b in edges:
+        ops.append(['add_dep', 0, a, b])
+    for x in range(n):
+        ops.append(['add_node', 0, x])
+
+    def ask():
+        for x in rng.sample(range(n), rng.randrange(1, n + 1)):
+            ops.append([rng.choice(['dependees', 'deps', 'deps_rec']), 0, x])
+        if rng.random() < 0.5:
+            ops.append([rng.choice(['initial', 'terminal', 'topo', 'dump']), 0])
+    ask()
+    for op in rng.sample(['reduce', 'close', 'reduce'], rng.randrange(1, 4)):
+        if rng.random() < 0.3:
+            ops.append(['copy', 0])
+        ops.append([op, 0])
+        ops.append(['dump', 0])
+        ask()
+    for x in range(n):
+        ops += [['deps', 0, x], ['dependees', 0, x], ['deps_rec', 0, x]]
+    ops += [['initial', 0], ['terminal', 0], ['topo', 0], ['dump', 0]]
+    return {'ops': ops}
+
+
 def gen(rng, tier, run):
+    if rng.random() < 0.25:
+        return gen_dag(rng)
     spec = Spec()
     ops = []
     nplain = rng.choice([2, 3, 4, 5, 7])
@@ -261,7 +301,12 @@ def gen(rng, tier, run):
                 emit(['remove_dep', v, pick_node(), pick_node()])
         elif r < 0.89:
             if acyclic(nodes, edges):
+                for x in sorted(nodes)[:3]:
+                    ops.append(['dependees', v, x])
                 emit([rng.choice(['reduce', 'close']), v])
+                for x in sorted(nodes)[:3]:
+                    ops.append(['dependees', v, x])
+                    ops.append(['deps', v, x])
         elif r < 0.97:
             cands = [w for w in range(nv) if nested_ids(spec, w)]
             if cands:
@@ -357,7 +402,7 @@ def exhaustive(tier, run):
     if tier != 'thorough':
         return
     run.extra['exhaustive'] = True
-    run.extra['exhaustive_scope'] = 'every digraph without self-loops on <= 4 nodes x every single editing operation and query'
+    run.extra['exhaustive_scope'] = 'every digraph without self-loops on <= 4 nodes x every single editing operation and query; every forward DAG on 5 nodes (two insertion orders) x reduction and closure'
     for n in range(0, 5):
         for edges in all_digraphs(n):
             build = [['new', 0]] + [['add_node', 0, i] for i in range(n)] + [['add_dep', 0, a, b] for a, b in edges]
@@ -385,6 +430,14 @@ def exhaustive(tier, run):
             for x in range(n):
                 ops += [['deps', 0, x], ['dependees', 0, x], ['deps_rec', 0, x]]
             ops += [['initial', 0], ['terminal', 0], ['topo', 0], ['dump', 0]]
+            yield {'ops': ops}
+    # every acyclic graph on 5 nodes numbered in a topological order, inserted forwards and backwards: reduction, closure
+    pairs = [(a, b) for a in range(5) for b in range(a + 1, 5)]
+    for mask in range(1 << len(pairs)):
+        edges = [p for i, p in enumerate(pairs) if mask >> i & 1]
+        for seq in (edges, edges[::-1]):
+            ops = [['new', 0]] + [['add_dep', 0, a, b] for a, b in seq] + [['add_node', 0, x] for x in range(5)]
+            ops += [['copy', 0], ['reduce', 1], ['dump', 1], ['copy', 0], ['close', 2], ['dump', 2]]
             yield {'ops': ops}
 
 
